@@ -55,6 +55,8 @@ void verif_yield(int site, uint64_t key);
 void verif_granules(size_t *in, size_t *out);
 void verif_event(int code, uint64_t a, uint64_t b, uint64_t c);
 void verif_flush(void);
+void verif_qmark(const char *name, unsigned size, unsigned cap);
+void verif_qdump(void);
 
 #define VERIF_ASSERT(x) assert(x)
 #define VERIF_YIELD(site, key) verif_yield((site), (key))
